@@ -38,6 +38,10 @@ def check(c: Check):
     clause_e(c)
     clause_f(c)
     clause_g(c)
+    from .common import check_nothing_is_swallowed
+    check_nothing_is_swallowed(c, 'C19-i', ['exactly_lib.impls.instructions.multi_phase.timeout',
+                                            'exactly_lib.util.process_execution', 'exactly_lib.execution'], 5,
+                               '`timeout = 0` is a timeout of zero seconds, not "no timeout"')
     # h: a timeout of 0 seconds is a timeout, not "no timeout"
     check_zero_is_a_value(c, 'C19-h', ['exactly_lib.util.process_execution.execution_elements',
                                        'exactly_lib.util.process_execution.process_executor',
